@@ -861,7 +861,7 @@ def _theta_source(rep, rot, L, theta_id, mode, pm):
                 if x['k'] == 'OpCall' and x.get('op') == '()' and x['callee']['qn'].endswith('i_random::operator()'):
                     draws.append(x)
                     return Poly.sym('u%d' % len(draws))
-                if x['k'] == 'Ref' and x.get('dk') == 'local':
+                if x['k'] == 'Ref' and x.get('dk') in ('local', 'static_local'):     # (a static local is C07/C12's business)
                     v = L.decl.get(x['id'])
                     if v is not None and 'init' in v and not L.assigns.get(x['id']):
                         i = astu.strip_casts(v['init'])
@@ -880,7 +880,8 @@ def _theta_source(rep, rot, L, theta_id, mode, pm):
                 else:
                     why = 'cos(thetaC) = %r' % c
             except AnalysisBroken as ex:
-                why = str(ex)
+                rep.cannot_decide('SAMPLING', where(rot, d.get('l')), mode + ':within-cone: ' + str(ex))
+                return
     else:
         why = '%d definitions of the polar angle' % len(defs)
     rep.add('SAMPLING', mode + ':within-cone', where(rot, d.get('l')), 'cos(thetaC) = m + (1 - m) u with m = cos(cone bound) '
